@@ -221,3 +221,53 @@ Definition check_l32 (c : l32_case) : N :=
        (negb ((st =? 2) || (st =? 3)) &&
         (if st =? 0 then (bst =? 0) && Str.list_eqb back inp else true) &&
         (if must_reject then st =? 1 else true)).
+
+(* ---- Go values built directly from model values: Encode, then Decode, compared field-wise ---- *)
+Fixpoint lb_eqb (a b : list bool) : bool :=
+  match a, b with [], [] => true | x :: a', y :: b' => Bool.eqb x y && lb_eqb a' b' | _, _ => false end.
+Fixpoint ln_eqb (a b : list N) : bool :=
+  match a, b with [], [] => true | x :: a', y :: b' => (x =? y) && ln_eqb a' b' | _, _ => false end.
+Fixpoint value_eqb (fuel : nat) (a b : value) : bool :=
+  match fuel with
+  | O => false
+  | Datatypes.S f =>
+    let vl := fix vl (x y : list value) : bool :=
+                match x, y with [], [] => true | p :: x', q :: y' => value_eqb f p q && vl x' y' | _, _ => false end in
+    let vll := fix vll (x y : list (list value)) : bool :=
+                 match x, y with [], [] => true | p :: x', q :: y' => vl p q && vll x' y' | _, _ => false end in
+    match a, b with
+    | VBool x, VBool y => Bool.eqb x y
+    | VU x, VU y => x =? y
+    | VI x, VI y => (x =? y)%Z
+    | VBytes x, VBytes y => ln_eqb x y
+    | VBytesL x, VBytesL y => ll_eqb x y
+    | VBools x, VBools y => lb_eqb x y
+    | VUs x, VUs y => ln_eqb x y
+    | VMsg None, VMsg None => true
+    | VMsg (Some x), VMsg (Some y) => vl x y
+    | VMsgs x, VMsgs y => vll x y
+    | _, _ => false
+    end
+  end.
+Fixpoint values_eqb (a b : list value) : bool :=
+  match a, b with [], [] => true | x :: a', y :: b' => value_eqb 12 x y && values_eqb a' b' | _, _ => false end.
+Definition top_not_nil (vs : list value) : bool :=
+  forallb (fun v => match v with VMsg None => false | _ => true end) vs.
+
+(* (struct, value, bytes of the real Encode, status, value read off the real Decode, status of the real DecodeStrict) *)
+Definition direct_case : Type := string * list value * list N * N * list value * N.
+Definition check_direct (c : direct_case) : N :=
+  let '(nm, v, enc, st, back, sst) := c in
+  match Schema.lookup schemas_env nm with
+  | None => 3
+  | Some s =>
+    let S := corr_strops true in
+    let menc := encode_struct S schemas_env sfuel s v in
+    let mdec := Decode S schemas_env sfuel s enc in
+    let mstrict := DecodeStrict S schemas_env sfuel s enc in
+    code (Str.list_eqb menc enc &&
+          match mdec with Ok v' => (st =? 0) && values_eqb v' back | Err _ => st =? 1 | Panic => st =? 2 | OutOfFuel => st =? 3 end &&
+          match mstrict with Ok _ => sst =? 0 | _ => sst =? 1 end)
+         ((st =? 0) && values_eqb back (canon_struct S schemas_env sfuel s v) &&
+          (if top_not_nil v then sst =? 0 else true))
+  end.
